@@ -263,7 +263,13 @@ recurseTail:
 			if level < 5 {
 				intp.errors = append(intp.errors, e2)
 				if proc, ok := intp.ErrorDict[e2.tp]; ok {
+					// The handler must run now, also if the error was raised
+					// while a procedure body was being collected (e.g. a syntax
+					// error inside an eexec section after an opening brace).
+					openProcs := intp.procStart
+					intp.procStart = nil
 					err = intp.executeOne(proc, true)
+					intp.procStart = openProcs
 				}
 				intp.errors = intp.errors[:level]
 			}
